@@ -5,14 +5,22 @@
   (parenthesisation respecting precedence/left-associativity, any whitespace at token boundaries)
   `a`, `b` of `e`:  build a = build b = machine (XC.program e).
   Proved here: the grammar the parser model transcribes is the grammar of the source, production by
-  production (regenerated obligation); whitespace in front of any token is insignificant for the lexer
+  production (regenerated obligation); **precedence and associativity** (`C03_precedence`,
+  `C03_parenthesisation_irrelevant`): for every expression over numbers, literals, unary minus, the
+  thirteen binary operators and parentheses — any operator mix, any depth — that carries at least the
+  parentheses its shape needs (`PE.fits 0`: a left operand may be of the operator's own level, a right
+  operand must bind tighter, the operand of unary minus is unary), the parser returns the postfix code of
+  the tree, so two ways of writing one tree compile to the same program, and explicit parentheses around
+  any sub-expression change nothing; whitespace in front of any token is insignificant for the lexer
   (`C03_leading_ws`, all grammars, any amount); the program of a tree runs to a value or an error
-  whatever tree it is.  NOT yet proved: parse ∘ render = program (token-level parser correctness) —
-  that part is held by the correspondence stream c03 (two renderings of the same tree, compared with
-  each other and with `XC.program`), i.e. by testing.
+  whatever tree it is.  NOT proved: the same with function calls and location paths as operands, and the
+  lexer's part of token-level correctness (text → tokens: the operator-name disambiguation) — held by the
+  correspondence stream c03 (two renderings of the same tree, compared with each other and with
+  `XC.program`), i.e. by testing.
 -/
 import YV.Proofs.XLexWS
 import YV.Proofs.XRun
+import YV.Proofs.XPrec
 import YV.Spec.XCompile
 import YV.Model.XTables
 import YV.Gen.XPath
@@ -28,6 +36,36 @@ theorem C03_leading_ws_partial (strict : Bool) (g : Grammar) (pm : PfxMap) (ws l
     (h : AllWS ws) (s : LexSt) (hp : s.peek = 0) :
     lexCommon strict g pm { s with line := ws ++ l } = lexCommon strict g pm { s with line := l } :=
   lexCommon_leading_ws strict g pm ws l h s hp
+
+/-- **C03 (precedence, associativity).** the parser turns the tokens of a written expression into the
+    postfix code of its tree followed by `store`, and records no error -/
+theorem C03_precedence (e : PE) (hf : e.fits 0) (toks : List LexedTok)
+    (ht : toks.map (·.tok) = e.toks ++ [.eof]) :
+    ∃ s', parseExprToks false toks = .ok s' ∧ s'.out.reverse = e.tree.code ++ [.store] ∧ s'.perr = none :=
+  parseExprToks_spec e hf toks ht
+
+/-- two ways of writing the same tree — the minimal parentheses, explicit parentheses everywhere, anything
+    in between — compile to the same program -/
+theorem C03_parenthesisation_irrelevant (e1 e2 : PE) (h : e1.tree = e2.tree) (h1 : e1.fits 0) (h2 : e2.fits 0)
+    (t1 t2 : List LexedTok) (ht1 : t1.map (·.tok) = e1.toks ++ [.eof]) (ht2 : t2.map (·.tok) = e2.toks ++ [.eof]) :
+    ∃ s1 s2, parseExprToks false t1 = .ok s1 ∧ parseExprToks false t2 = .ok s2 ∧ s1.out = s2.out := by
+  obtain ⟨s1, p1, o1, _⟩ := parseExprToks_spec e1 h1 t1 ht1
+  obtain ⟨s2, p2, o2, _⟩ := parseExprToks_spec e2 h2 t2 ht2
+  refine ⟨s1, s2, p1, p2, ?_⟩
+  have : s1.out.reverse = s2.out.reverse := by rw [o1, o2, h]
+  simpa using congrArg List.reverse this
+
+/-- non-vacuity: 1 - 2 - 3 * -4 = 5 or x — written bare, and with every parenthesis made explicit — both fit -/
+def exBare : PE :=
+  .bin .or (.bin .eq (.bin .sub (.bin .sub (.num SF.one) (.num SF.one)) (.bin .mul (.num SF.one) (.neg (.num SF.one)))) (.num SF.one)) (.lit [120])
+def exFull : PE :=
+  .bin .or (.paren (.bin .eq (.paren (.bin .sub (.paren (.bin .sub (.num SF.one) (.num SF.one))) (.paren (.bin .mul (.num SF.one) (.paren (.neg (.num SF.one))))))) (.num SF.one))) (.lit [120])
+example : exBare.fits 0 ∧ exFull.fits 0 ∧ exBare.tree = exFull.tree := by
+  refine ⟨?_, ?_, rfl⟩ <;> simp [exBare, exFull, PE.fits, level]
+/-- and a shape that needs its parentheses does not fit without them: 1 - (2 - 3) written as 1 - 2 - 3 is
+    another tree -/
+example : ¬ (PE.bin .sub (.num SF.one) (.bin .sub (.num SF.one) (.num SF.one))).fits 0 := by
+  simp [PE.fits, level]
 
 /-- the program of any tree ends in `store`, hence runs to a value xor an error -/
 theorem C03_program_runs (t : Tree) (e : XE) :
